@@ -34,12 +34,12 @@ pub fn check_rule_with_hint<'r, L: Language>(
       check_vars(rule, utils, constraints, transform, fixer)?;
     }
     CheckHint::Normal => {
-      check_utils_defined(rule, utils, constraints)?;
+      check_utils_defined(rule, utils, constraints, fixer)?;
       check_vars(rule, utils, constraints, transform, fixer)?;
     }
     // upper_vars is needed to check metavar defined in containing vars
     CheckHint::Rewriter(upper_vars) => {
-      check_utils_defined(rule, utils, constraints)?;
+      check_utils_defined(rule, utils, constraints, fixer)?;
       check_vars_in_rewriter(rule, utils, constraints, transform, fixer, upper_vars)?;
     }
   }
@@ -68,12 +68,16 @@ fn check_utils_defined<L: Language>(
   rule: &Rule<L>,
   utils: &RuleRegistration<L>,
   constraints: &HashMap<String, Rule<L>>,
+  fixer: &Option<Fixer<L>>,
 ) -> RResult<()> {
   rule.verify_util()?;
   // `matches` inside the bodies of local utility rules must resolve as well
   utils.verify_local_utils()?;
   for constraint in constraints.values() {
     constraint.verify_util()?;
+  }
+  if let Some(fixer) = fixer {
+    fixer.verify_util()?;
   }
   Ok(())
 }
